@@ -1,9 +1,12 @@
 """C10  Fields are linear in sources and initial state.
 
-Relational contract of one REAL forward step (update_E then update_H, incl. sources, boundaries,
-conductivities), for fixed materials/boundaries/objects:
+Relational contract of the two REAL half steps update_E and update_H (incl. sources, boundaries,
+conductivities), each from arbitrary inputs, for fixed materials/boundaries/objects:
 
-    step(a*S1 + b*S2 ; source amplitude factors a*A1 + b*A2)  ==  a*step(S1; A1) + b*step(S2; A2)
+    half(a*S1 + b*S2 ; source amplitude factors a*A1 + b*A2)  ==  a*half(S1; A1) + b*half(S2; A2)
+
+(one forward step = update_H o update_E with the same amplitude factors is then linear as a composition
+of linear maps)
 
 pointwise for E and H (and the PML auxiliary state is part of S where present), for all shapes,
 values, a, b; and of the detector update functions:
@@ -94,18 +97,19 @@ def _fields_task(spec):
         c.assume((t < T).z)
         c.cover("pre")
 
-        def step(E, H, amp):
+        # modular: each half step is proved linear in (E, H, amplitude) on its own, from arbitrary inputs;
+        # update_H o update_E is then linear as a composition of linear maps (with the shared amplitude).
+        def half(fn, E, H, amp):
             st = base.aset("fields->E", E).aset("fields->H", H)
-            o = objs_with(amp)
-            s1 = U.update_E(t_arr, st, o, cfg, True)
-            s2 = U.update_H(t_arr, s1, o, cfg, True)
-            return s2.fields.E, s2.fields.H
+            s1 = fn(t_arr, st, objs_with(amp), cfg, True)
+            return s1.fields.E, s1.fields.H
 
-        Ea, Ha = step(E1, H1, A1)
-        Eb, Hb = step(E2, H2, A2)
-        Ec, Hc = step(_lin(a, E1, b, E2), _lin(a, H1, b, H2), a * A1 + b * A2)
-        prove_arrays_equal("E_linear", Ec, _lin(a, Ea, b, Eb))
-        prove_arrays_equal("H_linear", Hc, _lin(a, Ha, b, Hb))
+        for hname, fn in (("update_E", U.update_E), ("update_H", U.update_H)):
+            Ea, Ha = half(fn, E1, H1, A1)
+            Eb, Hb = half(fn, E2, H2, A2)
+            Ec, Hc = half(fn, _lin(a, E1, b, E2), _lin(a, H1, b, H2), a * A1 + b * A2)
+            prove_arrays_equal(f"{hname}:E_linear", Ec, _lin(a, Ea, b, Eb))
+            prove_arrays_equal(f"{hname}:H_linear", Hc, _lin(a, Ha, b, Hb))
 
     return body
 
